@@ -1,7 +1,8 @@
 import BleveModel.Proto
 import BleveModel.Model.Text
+import BleveModel.Model.Highlight
 namespace Bleve.Drv.C19
-open Bleve.Proto Bleve.Text
+open Bleve.Proto Bleve.Text Bleve.Highlight
 
 def parseRune (s : String) : Option (Nat × Nat) :=
   match s.splitOn ":" with
@@ -10,6 +11,31 @@ def parseRune (s : String) : Option (Nat × Nat) :=
     | _, _ => none
   | _ => none
 
+/-- `s:e:ap` or `nil` -/
+def parseLocO (s : String) : Option (Option Loc) :=
+  if s == "nil" then some none else
+  match s.splitOn ":" with
+  | [a, b, c] => match parseInt a, parseInt b, parseNat c with
+    | some a, some b, some c => some (some ⟨a, b, c⟩)
+    | _, _, _ => none
+  | _ => none
+
+/-- comma separated, "-" = none -/
+def parseLocsO (s : String) : Option (List (Option Loc)) :=
+  if s == "-" then some [] else (s.splitOn ",").mapM parseLocO
+
+def parseLocs (s : String) : Option (List Loc) :=
+  match parseLocsO s with
+  | some l => l.mapM id
+  | none => none
+
+def showLocO : Option Loc → String
+  | none => "nil"
+  | some l => s!"{l.start}:{l.stop}:{l.ap}"
+
+def showFrags (fs : List Frag) : String :=
+  if fs.isEmpty then "-" else joinWith "," (fs.map (fun f => s!"{f.start}-{f.stop}"))
+
 def step (toks : List String) : String :=
   match toks with
   | "echo" :: rest => joinWith " " rest
@@ -17,6 +43,31 @@ def step (toks : List String) : String :=
     | some runes =>
       let ts := charTokenize runes
       if ts.isEmpty then "-" else joinWith "," (ts.map (fun t => s!"{t.start}-{t.stop}-{t.pos}"))
+    | none => "bad-op"
+  | ["hfrag", size, orig, locs] =>
+    match parseInt size, parseHexBytes orig, parseLocs locs with
+    | some size, some orig, some locs =>
+      match fragment orig size locs with
+      | .ok fs => showFrags fs
+      | .bail => "BAIL"
+      | .panic => "PANIC"
+    | _, _, _ => "bad-op"
+  | ["hmerge", locs] =>
+    match parseLocs locs with
+    | some locs => let m := mergeOverlapping locs
+      if m.isEmpty then "-" else joinWith "," (m.map showLocO)
+    | none => "bad-op"
+  | ["hfmt", esc, before, after, orig, fs, fe, fap, locs] =>
+    match parseBool esc, parseHexBytes before, parseHexBytes after, parseHexBytes orig, parseNat fs, parseNat fe, parseNat fap, parseLocsO locs with
+    | some esc, some before, some after, some orig, some fs, some fe, some fap, some locs =>
+      match render orig esc before after (format ⟨fs, fe⟩ fap locs) with
+      | some out => hexOfBytes out
+      | none => "PANIC"
+    | _, _, _, _, _, _, _, _ => "bad-op"
+  | ["hdec", p] =>
+    match parseHexBytes p with
+    | some p => let a := decodeRune p; let b := decodeLastRune p
+      s!"{boolStr a.1}:{a.2} {boolStr b.1}:{b.2} {runeCount p}"
     | none => "bad-op"
   | _ => "bad-op"
 end Bleve.Drv.C19
